@@ -18,6 +18,11 @@ Oracle after each accepted operation (all comparisons on vf.shadow tuples, struc
       the same lines (ids, rules, citations, stated sequents, printed arguments) and the same check result
   (f) the ORIGINAL state's deep snapshot is unchanged after the copy was edited - also when the edit raised.
 Plus the web back end's history (app.ide.ProofCache): states[i] must stay the state after i steps.
+
+Verdicts: a raising operation is a rejection.  A violation = the operation returned normally and one of (a)-(f) fails; the
+mechanism key names the invariant and the method, and - where a predicate on what the operation did (monitors on
+ProofState.remove_line / set_line / apply_tactic, OpLog) identifies an already understood root cause - that root cause,
+so that a known defect of one method cannot hide another failure of the same method.
 """
 import copy, json, os, sys, types
 from collections import Counter
@@ -49,7 +54,7 @@ REQUIRED = {'quick': {'ops_accepted': 1300, 'ops_rejected': 300, 'rechecks_ok': 
                          'structure_walks': 20000, 'citations_resolved': 400000, 'reimports_compared': 15000,
                          'complete_proofs_rechecked_no_gaps': 1500, 'isolation_checked': 24000,
                          'isolation_checked_after_raise': 3000, 'lib_recorded_steps_accepted': 18000,
-                         'perturbed_ops_accepted': 1500, 'gen_ops_accepted': 3000, 'search_calls': 2000,
+                         'perturbed_ops_accepted': 1000, 'gen_ops_accepted': 3000, 'search_calls': 2000,
                          'ide_history_states_compared': 500, 'scenarios_completed': 5}}
 SHARD_TIMEOUT = {'quick': 900, 'thorough': 7200}
 
@@ -556,15 +561,14 @@ def judge(sess, new, op, M):
     # (b) goal on the stored last line
     last = new.prf.items[-1] if new.prf.items else None
     last_key = seq_key(thm_sh(last.th, M)) if last is not None else None
+    gmech = 'goal-changed:' + name
+    if op['op'] == 'method':
+        try:
+            if sess.cur.get_proof_item(op['step']['goal_id']).rule != 'sorry':
+                gmech = 'goal-changed:method-aimed-at-a-line-that-is-not-a-gap'
+        except Exception:
+            pass
     if last_key != sess.goal:
-        gmech = 'goal-changed:' + name
-        if op['op'] == 'method':
-            try:
-                tgt = sess.cur.get_proof_item(op['step']['goal_id'])
-                if tgt.rule != 'sorry':
-                    gmech = 'goal-changed:method-aimed-at-a-line-that-is-not-a-gap'
-            except Exception:
-                pass
         sess.violation(gmech, 'last line (%s) states %s, the goal was %s' % (
             last.rule if last is not None else None, sstr(last.th) if last is not None else None, sess.origin.get('prop')), op)
     if sess.tainted:
@@ -586,7 +590,7 @@ def judge(sess, new, op, M):
     ctx.count('rechecks_ok')
     res_key = seq_key(thm_sh(res, M)) if res is not None else None
     if res_key != sess.goal:
-        sess.violation('goal-changed:' + name, 'the full check returns %s, the goal was %s' % (sstr(res), sess.origin.get('prop')), op)
+        sess.violation(gmech, 'the full check returns %s, the goal was %s' % (sstr(res), sess.origin.get('prop')), op)
     want = visible_sorrys(new, M)
     got = Counter(seq_key(thm_sh(g, M)) for g in chk.rpt.gaps)
     ctx.count('gap_reports_compared')
@@ -874,10 +878,6 @@ def classify_sequent_diff(new, ia, ib, M, M2):
 
 
 # ------------------------------------------------------------------ reading parameters off a state
-def line_ids(state):
-    return [(pos, it) for pos, it in flat_lines(state)]
-
-
 def ids(pos):
     return '.'.join(map(str, pos))
 
@@ -1349,14 +1349,6 @@ def new_session(ctx, origin, vars_, prop, kind):
     return sess
 
 
-def vars_jsonable(vars_):
-    from syntax import printer
-    out = {}
-    for k, v in vars_.items():
-        out[k] = v if isinstance(v, str) else printer.print_type(v)
-    return out
-
-
 def lib_units(parts, unit):
     """(theory, part, of) work units - a big theory is split by theorem index - packed greedily into `parts` bins"""
     units = []
@@ -1609,22 +1601,21 @@ def run_gen(ctx, spec):
 
 
 def gen_session(ctx, spec, sess, thy, rng):
-    if True:
-        nops = spec['ops'] if thy == 'logic' else spec['ops'] // 2
-        # main line: search-biased so that proofs progress; side branches with arbitrary perturbations
-        for j in range(nops):
-            if rng.random() < 0.3:
-                b = sess.fork()
-                perturb(b, rng, rng.choice([1, 2]), None, 'gen_ops_accepted', allow_search=False)
-            before = len(sess.ops)
-            drive_progress(sess, rng)
-            if len(sess.ops) == before and rng.random() < 0.5:
-                perturb(sess, rng, 1, None, 'gen_ops_accepted', allow_search=(thy == 'logic'))
-            if not any(it.rule == 'sorry' for _, it in flat_lines(sess.cur)):
-                ctx.count('gen_proofs_completed')
-                # keep editing a finished proof: raw insertions and cuts must keep it checkable
-                perturb(sess, rng, 2, None, 'gen_ops_accepted', allow_search=False)
-                break
+    nops = spec['ops'] if thy == 'logic' else spec['ops'] // 2
+    # main line: search-biased so that proofs progress; side branches with arbitrary perturbations
+    for j in range(nops):
+        if rng.random() < 0.3:
+            b = sess.fork()
+            perturb(b, rng, rng.choice([1, 2]), None, 'gen_ops_accepted', allow_search=False)
+        before = len(sess.ops)
+        drive_progress(sess, rng)
+        if len(sess.ops) == before and rng.random() < 0.5:
+            perturb(sess, rng, 1, None, 'gen_ops_accepted', allow_search=(thy == 'logic'))
+        if not any(it.rule == 'sorry' for _, it in flat_lines(sess.cur)):
+            ctx.count('gen_proofs_completed')
+            # keep editing a finished proof: raw insertions and cuts must keep it checkable
+            perturb(sess, rng, 2, None, 'gen_ops_accepted', allow_search=False)
+            break
 
 
 def drive_progress(sess, rng):
